@@ -60,6 +60,25 @@ struct SPool {
                 }
             }
             size_t n = sizeof_(o);
+            // every other read-only observer of an ST::string is a function of (c_str(), size())
+            if (o != BUFSLOT) {
+                const ST::string &s = str(o); const char *bad = nullptr;
+                if (s.begin() != p || s.cbegin() != p || s.end() != p + n || s.cend() != p + n) bad = "!iterators";
+                else if (s.rbegin().base() != p + n || s.crbegin().base() != p + n || s.rend().base() != p || s.crend().base() != p) bad = "!reverse-iterators";
+                else if (s.empty() != (n == 0)) bad = "!empty";
+                else if (&s.front() != p || &s.back() != (n ? p + n - 1 : p)) bad = "!front-back";
+                else if (s.c_str("sub") != (n ? p : "sub") && !(n == 0 && std::string(s.c_str("sub")) == "sub")) bad = "!c_str-substitute";
+                else if (s.view().data() != p || s.view().size() != n || (n >= 2 && (s.view(1).data() != p + 1 || s.view(1).size() != n - 1 || s.view(1, 1).size() != 1))) bad = "!view";
+                else {
+                    for (size_t i = 0; i < n && !bad; ++i) if (&s.at(i) != p + i || &s[i] != p + i) bad = "!at";
+                    for (size_t i : {n, n + 1, (size_t)-1}) {
+                        bool threw = false;
+                        try { (void)s.at(i); } catch (const std::out_of_range &) { threw = true; }
+                        if (!threw && !bad) bad = "!at-range";
+                    }
+                }
+                if (bad) where = bad;
+            }
             if (!out.empty()) out += ",";
             out += "o" + std::to_string(o) + ":" + std::to_string(n) + ":" + hex_units(p, n) + ":";
             put_hex(out, unit_val(p[n]), 2);
@@ -133,6 +152,13 @@ static void const_op(SPool &P, int d, int s, const std::string &name, long x, lo
     else if (name == "cplus") new (at) ST::string(arg(x).c_str() + src);
     else if (name == "plusch") new (at) ST::string(src + (char32_t)x);
     else if (name == "chplus") new (at) ST::string((char32_t)x + src);
+    // the narrower character overloads widen to char32_t: char16_t as it is, char through unsigned char, wchar_t through unsigned int
+    else if (name == "plusch16") new (at) ST::string(src + (char16_t)x);
+    else if (name == "pluschw") new (at) ST::string(src + (wchar_t)x);
+    else if (name == "pluschc") new (at) ST::string(src + (char)x);
+    else if (name == "ch16plus") new (at) ST::string((char16_t)x + src);
+    else if (name == "chwplus") new (at) ST::string((wchar_t)x + src);
+    else if (name == "chcplus") new (at) ST::string((char)x + src);
     else if (name == "copyvia") { ST::string t = src; new (at) ST::string(t); }
     else if (name == "fromlatin1") new (at) ST::string(ST::string::from_latin_1(src.c_str(), src.size()));
     else if (name == "fromutf8") new (at) ST::string(ST::string::from_utf8(src.c_str(), src.size(), ST::substitute_invalid));
@@ -491,6 +517,8 @@ static void gen(Emitter &em, const Options &opt) {
                 "a0,8364", "a0,128512", "e0,65", "a0,1114112", "S0,c:" + longv, "S0,s:" + longv + "ff", "S0,a:" + longv, "S0,c:" + shortv, "S0,c:" + longv + "c3", "S0,c:c3",
                 "T0,c,16:00410042d83dde00", "T0,c,16:d800", "E0,c,32:000000410001f600", "E0,s,32:00110000",
                 "K2,0,substr,1,40", "K2,0,whole", "K2,0,left,20", "K2,0,right,3", "K2,0,plus,1", "K2,0,plusc,1", "K2,0,cplus,1", "K2,0,plusch,8364", "K2,0,plusch,1114112",
+                "K2,0,plusch16,8364", "K2,0,plusch16,65", "K2,0,plusch16,55296", "K2,0,pluschw,128512", "K2,0,pluschw,1114112", "K2,0,pluschc,65", "K2,0,pluschc,233", "K2,0,pluschc,-23",
+                "K2,0,ch16plus,8364", "K2,0,ch16plus,57343", "K2,0,chwplus,128512", "K2,0,chwplus,65", "K2,0,chcplus,65", "K2,0,chcplus,200", "K2,0,chcplus,-128",
                 "K2,0,repl,1,1", "K2,0,replc,1,0", "K2,0,bf,1,0", "K2,0,al,1,1", "K2,0,bfc,45", "K2,0,trimset,1", "K2,0,fill,40,66", "K2,0,fromint,-123456789",
                 "K2,0,fmtint,-7,255", "K2,0,fmtwith,1", "K2,0,ssout,1", "K2,1,fromutf8c",
                 "K8,0,toutf8", "K8,0,tolatin1", "K8,0,tolatin1x", "K8,0,hexdec", "K8,0,b64dec",
@@ -530,7 +558,8 @@ static void gen(Emitter &em, const Options &opt) {
             for (const char *n : KOPSC) body.push_back(std::string("K3,0,") + n + ",45");
             body.push_back("K3,2,trim"); body.push_back("K3,0,substr,0," + S(c0)); body.push_back("K3,0,substr,1,5"); body.push_back("K3,0,substr,-3,3");
             body.push_back("K3,0,left," + S(c0)); body.push_back("K3,0,left,2"); body.push_back("K3,0,right," + S(c0)); body.push_back("K3,0,right,1");
-            body.push_back("K3,0,plusch,8364"); body.push_back("K3,0,chplus,65"); body.push_back("K3,0,fill,20,66"); body.push_back("K3,0,fromint,-12345"); body.push_back("K3,0,fmtint,-7,255");
+            body.push_back("K3,0,plusch,8364"); body.push_back("K3,0,chplus,65");
+            body.push_back("K3,0,plusch16,233"); body.push_back("K3,0,chwplus,8364"); body.push_back("K3,0,pluschc,-61"); body.push_back("K3,0,chcplus,126"); body.push_back("K3,0,fill,20,66"); body.push_back("K3,0,fromint,-12345"); body.push_back("K3,0,fmtint,-7,255");
             body.push_back("K8,0,toutf8"); body.push_back("K8,0,tolatin1");
             body.push_back("V0,splitc,45,-1:3,4,5"); body.push_back("V0,splitc,32,1:3,4,"); body.push_back("V0,splits,1,-1:3,4,5"); body.push_back("V0,tok,0,0:3,4,5"); body.push_back("V2,tokset,1,0:3,,");
             for (const char *n : QOPSX) { body.push_back(std::string("Q0,") + n + ",1"); body.push_back(std::string("Q0,") + n + ",0"); }
